@@ -948,6 +948,10 @@ func parseOffsetReg(s string) (int32, RegisterType, error) {
 		return 0, 0, fmt.Errorf("invalid offset register: %s", s)
 	}
 
+	if !strings.HasSuffix(s, ")") {
+		return 0, 0, fmt.Errorf("invalid offset register: %s", s)
+	}
+
 	immString := strings.TrimSpace(s[:firstParenthesis])
 	imm, err := strconv.ParseInt(immString, 10, 32)
 	if err != nil {
